@@ -33,11 +33,18 @@ def bits(ty, v):
     return "%x" % (int(v) % (1 << w))
 
 
-def rand_vals(rng, ty, n, small=True):
+def rand_vals(rng, ty, n, full=False):
     out = []
     pool = [rng.randint(0, 9) for _ in range(3)]
     for _ in range(n):
         r = rng.random()
+        if full and ty[0] in 'fc' and r < 0.5:
+            # full-mantissa values: every digit of the stored representation matters
+            a, b = rng.uniform(-1000, 1000) / 3, rng.uniform(-1, 1) * 10.0 ** rng.randint(-30, 30)
+            if ty in ('f32', 'c64'):
+                a, b = struct.unpack('<ff', struct.pack('<ff', a, b))
+            out.append((a, b) if ty[0] == 'c' else a)
+            continue
         if r < 0.45:
             v = rng.choice(pool)           # equal neighbours: SIE runs
         elif r < 0.55:
@@ -112,7 +119,7 @@ def build(rng, enc, ty, order):
             s = rng.randint(foff * spf, max(foff * spf, length)) - shift   # overwrite somewhere inside
         if s + shift < foff * spf or s < 0:
             s = max(0, foff * spf - shift) if foff * spf - shift >= 0 else length
-        vals = rand_vals(rng, cty if w != "bt" else 'u8', n)
+        vals = rand_vals(rng, cty if w != "bt" else 'u8', n, full=(w in ("r", "ph") and ty[0] in 'fc' and rng.random() < 0.5))
         if w == "bt":
             vals = [v % 16 for v in vals]
         L.append("put %s 0 %d %s %s" % (w, s, cty, ",".join(bits(cty, v) for v in vals)))
